@@ -43,6 +43,8 @@ def _load_to_at(t):
         return t
     if t[0] == 'load' and len(t) == 2:
         return ('at', _load_to_at(t[1]))
+    if t[0] == 'deref' and len(t) == 2 and isinstance(t[1], tuple):
+        return ('at', (('T', _load_to_at(t[1])), ()))
     return tuple(_load_to_at(x) if isinstance(x, tuple) else x for x in t)
 
 
